@@ -410,3 +410,13 @@ def sequence(cases, s0, s1):
     if pos != len(delivered):
         return "extra-messages-delivered"
     return "ok"
+
+
+def session_after(status, ct, bsel, is_sse, idsel, had_before):
+    """whatever a non-error response looks like, a session id it issues is carried by the next request"""
+    first = (status, ct, bsel, is_sse, 0, idsel)
+    second = (200, 0, 0, False, 0, 0)
+    if had_before:
+        # an earlier response already issued sess-A; this one rotates it to sess-B
+        return sequence([(200, 0, 0, False, 0, 0), first, second], "sess-A", "sess-B")
+    return sequence([first, second], "sess-A", None)
